@@ -150,6 +150,10 @@ pub fn judge(path: &JPath, ip: &JsonPath<'static>, doc: &RVal, b: &[u8], acc: &m
 
 pub fn spaces(tier: Tier) -> Vec<Space<'static>> {
     let mut sp: Vec<Space> = vec![];
+    {
+        let sz = std::sync::Arc::new(crate::checks::scale::sizes_heavy(tier));
+        sp.push(Space::new("size sweep: every N up to the limit x 4 families x 13 paths x 4 modes", sz.len() as u64, move |i, acc| crate::checks::scale::sized_paths(sz[i as usize], acc, true)));
+    }
     for ps in path_sets(tier) {
         // the relational check runs 12 evaluations per pair: use every path but thin the big sets' documents
         let n = ps.paths.len() as u64;
